@@ -56,8 +56,16 @@ theorem polyMod_families_correct {o : Ops R} (ho : RingLike o)
     (f.post ks (lookup f.unit ks).outE j).eval o env = (f.spec ks j).eval o env :=
   Family.polyMod_sound ho (all_ok f hf) htm hk hks hj env hh hrw
 
+/-- **`eulerAngles(q)`**: pitch, yaw and roll are the documented `atan2`/`asin` expressions, with roll = 0 and
+    pitch = `2 atan2(x, w)` exactly when both `atan2` arguments are within `epsilon` of zero (gimbal lock) — for every
+    quaternion, both memory orders, in every ordered-field semantics (`atan2`, `asin` uninterpreted) -/
+theorem eulerAngles_correct {K : Type} [Field K] [LinearOrder K] [IsStrictOrderedRing K] {o : Ops K} (ho : OrderedEqLike o)
+    (cfg : Nat) (hc : [cfg] ∈ cfgs) (j : Nat) (hj : j < 3) (env : Nat → K) :
+    ((lookup "eulerAngles" [cfg]).out j).eval o env = (eulerT j).eval o env :=
+  Family.walk_poly_sound ho (all_ok f_eulerAngles (by simp [families])) rfl rfl rfl (ks := [cfg]) hc (j := j) hj env
+
 /-- non-vacuity -/
 example : (lookup "mat3ofprod" [1]).nIn = 8 ∧ (lookup "mat3ofprod" [1]).outs.length = 9 ∧
-    f_euler3.keys.length = 12 ∧ families.length = 28 := by decide +kernel
+    f_euler3.keys.length = 12 ∧ families.length = 29 := by decide +kernel
 
 end Glm.Props.C04
